@@ -778,19 +778,84 @@ class Interp:
             return bool(r and r[0] == "class" and r[1].enum is not None)
         return False
 
+    def split_value(self, v: Term, s: State, ctx: Ctx) -> List[Tuple[State, Term]]:
+        """A value that is a two-way choice on a condition the path has not decided (`a or b`, a conditional expression
+        evaluated inside a comprehension / argument list, ...) - also as an item of a tuple - forks the path on that
+        condition, as the same choice written as a statement would.  Only in the analysed entry function (depth <= 1)."""
+        if ctx.depth > 1:
+            return [(s, v)]
+
+        def resolve(x: Term, s1: State) -> Term:
+            for _ in range(8):
+                if isinstance(x, tuple) and len(x) == 4 and x[0] == "ite":
+                    d = decided_by(s1.pc, x[1]) if not is_c(x[1]) else bool(x[1][1])
+                    if d is None:
+                        return x
+                    x = x[2] if d else x[3]
+                else:
+                    break
+            if isinstance(x, tuple) and x[:1] == ("tuple",):
+                return ("tuple", tuple(resolve(y, s1) for y in x[1])) + tuple(x[2:])
+            return x
+
+        def on_argument(cnd: Term) -> bool:
+            # the truth of / a comparison with a constant of a plain argument symbol (not of anything read from the environment)
+            def arg_sym(t: Any) -> bool:
+                return isinstance(t, tuple) and len(t) == 3 and t[0] == "sym" and isinstance(t[1], str) and "#" not in t[1] and ":" not in t[1] and "." not in t[1] and "[" not in t[1]
+            if isinstance(cnd, tuple) and cnd[:1] == ("not",) and len(cnd) == 2:
+                return on_argument(cnd[1])
+            if isinstance(cnd, tuple) and cnd[:1] == ("truthy",) and len(cnd) == 2:
+                return arg_sym(cnd[1])
+            if isinstance(cnd, tuple) and cnd[:1] == ("cmp",) and len(cnd) == 4:
+                return arg_sym(cnd[2]) and is_c(cnd[3])
+            return False
+
+        def first_cond(x: Term) -> Optional[Term]:
+            if isinstance(x, tuple) and len(x) == 4 and x[0] == "ite" and _is_cond(x[1]) and on_argument(x[1]):
+                return x[1]
+            if isinstance(x, tuple) and x[:1] == ("tuple",):
+                for y in x[1]:
+                    r = first_cond(y)
+                    if r is not None:
+                        return r
+            return None
+
+        work = [(s, v)]
+        for _round in range(10):
+            nxt: List[Tuple[State, Term]] = []
+            changed = False
+            for s1, v1 in work:
+                v1 = resolve(v1, s1)
+                cnd = first_cond(v1)
+                if cnd is None:
+                    nxt.append((s1, v1))
+                    continue
+                s2 = s1.fork()
+                s1.pc.append(cnd)
+                s2.pc.append(neg(cnd))
+                nxt.extend([(s1, v1), (s2, v1)])
+                changed = True
+            work = nxt
+            if not changed:
+                break
+            if len(work) > 256:
+                raise AnalysisError(f"too many value-level case splits at {ctx.fi.key if ctx.fi else '?'}")
+        return [(s1, resolve(v1, s1)) for s1, v1 in work]
+
     def st_Assign(self, node: ast.Assign, st: State, ctx: Ctx) -> List[Tuple[State, Any]]:
         self._cur = (st, ctx)
         des = self._desugar_comp(node)
         if des is not None:
             return self.exec_block(des, st, ctx)
         out = []
-        for s, v, sig in self.eval_forking(node.value, st, ctx):
+        for s0, v0, sig in self.eval_forking(node.value, st, ctx):
             if sig is not None:
-                out.append((s, sig))
+                out.append((s0, sig))
                 continue
-            for tgt in node.targets:
-                self.assign(tgt, v, s, ctx)
-            out.extend(self._flush(s, ctx, node))
+            for s, v in self.split_value(v0, s0, ctx):
+                for tgt in node.targets:
+                    self.assign(tgt, v, s, ctx)
+                out.extend(self._flush(s, ctx, node))
         return out
 
     def st_AnnAssign(self, node: ast.AnnAssign, st: State, ctx: Ctx) -> List[Tuple[State, Any]]:
@@ -810,6 +875,11 @@ class Interp:
         cur = self.eval(load, st, ctx)
         self.frozen_guard(cur, st, "the target of an augmented assignment", ctx.loc(node))
         rhs = self.eval(node.value, st, ctx)
+        if isinstance(node.op, ast.Add) and cur[0] == "obj" and st.heap[cur[1]].kind == "list" and not st.heap[cur[1]].symbolic and not st.heap[cur[1]].name.startswith("gen:"):
+            more = self.iter_items(rhs, st, ctx, node)
+            if more is not None:
+                st.heap[cur[1]].items.extend(more)       # list += iterable extends the list in place (aliases see it)
+                return self._flush(st, ctx, node)
         v = self.binop(node.op, cur, rhs, st, ctx, node)
         self.assign(node.target, v, st, ctx)
         return self._flush(st, ctx, node)
@@ -1131,6 +1201,24 @@ class Interp:
     def st_For(self, node: ast.For, st: State, ctx: Ctx) -> List[Tuple[State, Any]]:
         out: List[Tuple[State, Any]] = []
         it_call = node.iter
+        if (isinstance(it_call, ast.Call) and isinstance(it_call.func, ast.Name) and it_call.func.id == "iter" and "iter" not in st.env and len(it_call.args) == 2 and not it_call.keywords
+                and not node.orelse and not any(isinstance(n, ast.Break) for n in _walk_own(node.body)) and not isinstance(node, ast.AsyncFor)):
+            cal_v = self.eval(it_call.args[0], st, ctx)
+            if not (isinstance(cal_v, tuple) and cal_v[:1] == ("partialobj",) and isinstance(cal_v[1], tuple) and cal_v[1][:1] == ("biometh",)):
+                # for x in iter(f, sentinel): body   ==   while True: x = f(); if x == sentinel: break; body
+                # (f and the sentinel are evaluated once, before the loop)
+                self._comp_n = getattr(self, "_comp_n", 0) + 1
+                fn_, sn_ = f"$iterf{self._comp_n}", f"$iters{self._comp_n}"
+                st.env[fn_] = cal_v
+                st.env[sn_] = self.eval(it_call.args[1], st, ctx)
+                L = ast.Load()
+                step = ast.Assign(targets=[node.target], value=ast.Call(func=ast.Name(id=fn_, ctx=L), args=[], keywords=[]), type_comment=None)
+                stop = ast.If(test=ast.Compare(left=_as_load(node.target), ops=[ast.Eq()], comparators=[ast.Name(id=sn_, ctx=L)]), body=[ast.Break()], orelse=[])
+                loop = ast.While(test=ast.Constant(value=True), body=[step, stop] + list(node.body), orelse=[])
+                for x_ in (step, stop, loop):
+                    ast.copy_location(x_, node)
+                ast.fix_missing_locations(loop)
+                return self.st_While(loop, st, ctx)
         if isinstance(it_call, ast.Call) and _is_plain_ref(it_call.func) and not isinstance(node, ast.AsyncFor):
             fv_ = None
             try:
@@ -2407,7 +2495,18 @@ class Interp:
             guard.append(tx if is_and else neg(tx))
         if len(vals) == 1:
             return vals[0]
-        return ("and" if is_and else "or",) + tuple(("valof", v) if not _is_cond(v) else v for v in vals)
+        if all(_is_cond(v) for v in vals):
+            return ("and" if is_and else "or",) + tuple(vals)
+        # used for its value: `a or b` is a if a is true else b; `a and b` is b if a is true else a
+        acc = vals[-1]
+        for v in reversed(vals[:-1]):
+            tv = self.truth(v, st)
+            if _is_cond(v):
+                # a truth value as operand: when it decides the result, the result is that bool
+                acc = ite(tv, c(True), acc) if not is_and else ite(tv, acc, c(False))
+            else:
+                acc = ite(tv, v, acc) if not is_and else ite(tv, acc, v)
+        return acc
 
     def ev_UnaryOp(self, node: ast.UnaryOp, st: State, ctx: Ctx) -> Term:
         v = self.eval(node.operand, st, ctx)
@@ -2523,14 +2622,42 @@ class Interp:
             return self.lib.slice_value(self, base, lo, hi, st, ctx, node)
         return self.lib.index_value(self, base, idx, st, ctx, node)
 
+    def _display(self, node: Any, kind: str, st: State, ctx: Ctx) -> Any:
+        """Items of a [..] / (..) / {..} display; `*xs` entries are spliced in.  Returns a list of items, or a term when
+        the display is exactly `[*xs]` over a collection of unknown length (that is list(xs) / tuple(xs) / set(xs))."""
+        if not any(isinstance(e, ast.Starred) for e in node.elts):
+            return [self.eval(e, st, ctx) for e in node.elts]
+        items: List[Term] = []
+        for e in node.elts:
+            if not isinstance(e, ast.Starred):
+                items.append(self.eval(e, st, ctx))
+                continue
+            v = self.eval(e.value, st, ctx)
+            its = self.iter_items(v, st, ctx, node)
+            if its is None:
+                if len(node.elts) == 1:
+                    return self.lib.call_ext(self, "builtins." + kind, [v], {}, st, ctx, node, False)
+                raise AnalysisError(f"starred item of unknown length in a display at {ctx.loc(node)}")
+            items.extend(its)
+        return items
+
     def ev_Tuple(self, node: ast.Tuple, st: State, ctx: Ctx) -> Term:
-        return ("tuple", tuple(self.eval(e, st, ctx) for e in node.elts))
+        r = self._display(node, "tuple", st, ctx)
+        return ("tuple", tuple(r)) if isinstance(r, list) else r
 
     def ev_List(self, node: ast.List, st: State, ctx: Ctx) -> Term:
-        return st.alloc(HeapObj("list", None, {}, [self.eval(e, st, ctx) for e in node.elts]))
+        r = self._display(node, "list", st, ctx)
+        return st.alloc(HeapObj("list", None, {}, r)) if isinstance(r, list) else r
 
     def ev_Set(self, node: ast.Set, st: State, ctx: Ctx) -> Term:
-        return st.alloc(HeapObj("set", None, {}, [self.eval(e, st, ctx) for e in node.elts]))
+        r = self._display(node, "set", st, ctx)
+        if isinstance(r, list):
+            uniq: List[Term] = []
+            for x in r:
+                if x not in uniq:
+                    uniq.append(x)
+            return st.alloc(HeapObj("set", None, {}, uniq))
+        return r
 
     def ev_Dict(self, node: ast.Dict, st: State, ctx: Ctx) -> Term:
         items = []
@@ -2709,6 +2836,10 @@ class Interp:
             a, b = self.truth(v[2], st), self.truth(v[3], st)
             if a == b:
                 return a
+            if b == v[1]:
+                return conj([v[1], a])      # p ? a : p
+            if a == v[1]:
+                return disj([v[1], b])      # p ? p : b
             if _is_cond(v[1]) or is_c(v[1]):
                 # as a condition: (p and a) or (not p and b), simplified when a branch is constant
                 if b == c(False):
@@ -2864,6 +2995,9 @@ def decided_by(pc: List[Term], cond: Term) -> Optional[bool]:
     for g in pc:
         for a in _atoms(g):
             have.add(a)
+    if any(isinstance(g, tuple) and g and g[0] == "or" for g in have):
+        from .frames import flat_pc
+        have |= set(flat_pc(list(pc)))      # closed under unit resolution
     parts = _atoms(cond)
     # a value known to be truthy is not None (literal-level implication)
     if len(parts) == 1 and isinstance(parts[0], tuple) and parts[0][:1] == ("cmp",) and parts[0][1] in ("is", "is not", "==", "!=") and is_c(parts[0][3]) and parts[0][3][1] is None:
@@ -2924,6 +3058,15 @@ def conj(parts: List[Term]) -> Term:
             out.append(p)
     if not out:
         return c(True)
+    if len(out) > 1:
+        seen_ = set(out)
+        if any(neg(p) in seen_ for p in out):
+            return c(False)         # p and not p
+        dedup: List[Term] = []
+        for p in out:
+            if p not in dedup:
+                dedup.append(p)
+        out = dedup
     if len(out) == 1:
         return out[0]
     return ("and",) + tuple(out)
@@ -2986,7 +3129,13 @@ def _cmp_rank(v: Term) -> int:
 
 def mkcmp(op: str, a: Term, b: Term) -> Term:
     """Canonical comparison atom: `a OP b` and `b OP' a` are one term.  A constant operand is on the right;
-    two non-constant (or two constant) operands are ordered by their printed form."""
+    two non-constant (or two constant) operands are ordered by their printed form.  A truth value compared with a
+    bool constant is that truth value (or its negation): `cond == True`, `cond is True`, `cond != False` are `cond`."""
+    if op in ("==", "!=", "is", "is not"):
+        for x, k in ((a, b), (b, a)):
+            if is_c(k) and isinstance(k[1], bool) and isinstance(x, tuple) and x and _is_cond(x) and x[0] not in ("valof",):
+                same = (op in ("==", "is")) == k[1]
+                return x if same else neg(x)
     if op in _FLIP:
         ra, rb = _cmp_rank(a), _cmp_rank(b)
         swap = ra > rb or (ra == rb and T.show(a) > T.show(b))
